@@ -156,7 +156,7 @@ class Node:
             t += '.cl.%s.%s' % (fmt(self.ct), fmt(self.clv))
         elif k == 'rt':
             t += '.rt.%d' % self.N
-        elif k:
+        elif k and k != 'pat':
             t += '.' + k
         if self.extra:
             t += '.' + self.extra
@@ -397,9 +397,51 @@ def op_atleast_3d(k, v):
                  cxx=lambda e, _: 'view::atleast_nd(%s, 3_ct)' % e[0])]
 
 
+# three-operand broadcasting: view::where(c, x, y) and view::broadcast_arrays(p, q, r)[0]  (view::clip, the third user of
+# broadcast_arrays with three operands, does not compile in the unchanged library for any operand kinds: its test is disabled too).  The operand pattern says what stands in each position: a = first array,
+# b = second array, s = a number literal (size type ct<1>, shape None).
+_LIT = {'where': ('1', '7', '7'), 'bcast3': ('7', '7', '7')}
+
+
+def _three(name, pat, kids):
+    lit = _LIT[name]
+
+    def vals(a):
+        return [a[0] if ch == 'a' else (a[1] if ch == 'b' else int(lit[i])) for i, ch in enumerate(pat)]
+
+    def exprs(e):
+        return [e[0] if ch == 'a' else (e[1] if ch == 'b' else lit[i]) for i, ch in enumerate(pat)]
+    if name == 'where':
+        npf = lambda a, _: (lambda v: np.where(np.asarray(v[0]) != 0, v[1], v[2]))(vals(a))
+        cxx = lambda e, _: 'view::where(%s, %s, %s)' % tuple(exprs(e))
+    else:
+        npf = lambda a, _: (lambda v: np.broadcast_arrays(*[np.asarray(x) for x in v])[0])(vals(a))
+        cxx = lambda e, _: 'c11::first(view::broadcast_arrays(%s, %s, %s))' % tuple(exprs(e))
+    return Node(name, kids, 'pat', extra=pat, npf=npf, cxx=cxx)
+
+
+PAT2 = ['aab', 'asb', 'abs', 'sab', 'sba', 'bas', 'bsa']
+PAT1 = ['ass', 'sas', 'ssa']
+
+
 def op_where(k1, k2, v1, v2):
-    return [Node('where', [k1, k2], npf=lambda a, _: np.where(a[0] != 0, a[0], a[1]),
-                 cxx=lambda e, _: 'view::where(%s, %s, %s)' % (e[0], e[0], e[1]))]
+    return [_three('where', 'aab', [k1, k2])]
+
+
+def op_where3(k1, k2, v1, v2):
+    return [_three('where', pat, [k1, k2]) for pat in PAT2]
+
+
+def op_bcast3(k1, k2, v1, v2):
+    return [_three('bcast3', pat, [k1, k2]) for pat in ('asb', 'sab', 'bsa', 'aab')]
+
+
+def op_where1(k, v):
+    return [_three('where', pat, [k]) for pat in PAT1]
+
+
+def op_bcast1(k, v):
+    return [_three('bcast3', 'ass', [k]), _three('bcast3', 'sas', [k])]
 
 
 def _matmul2d(a, b):
@@ -517,14 +559,14 @@ MODELLED_BINARY = [op_add, op_concatenate]
 EXTRA_UNARY = [op_repeat, op_pad, op_cumsum, op_roll, op_flip, op_moveaxis, op_take, op_slice, op_atleast_3d, op_multiply_scalar]
 EXTRA_BINARY = [op_where, op_matmul]
 MODELLED = {'transpose', 'reshape', 'flatten', 'broadcast_to', 'tile', 'expand_dims', 'squeeze', 'sum', 'negative', 'add', 'concatenate',
-            'repeat', 'pad', 'cumsum', 'roll', 'flip', 'moveaxis', 'take', 'slice', 'atleast_3d', 'mulscalar', 'where', 'matmul'}
+            'repeat', 'pad', 'cumsum', 'roll', 'flip', 'moveaxis', 'take', 'slice', 'atleast_3d', 'mulscalar', 'where', 'matmul', 'bcast3'}
 
 # header of each view function; a TU includes only what its programs use (compile time)
 HEADER_OF = {'transpose': 'transpose', 'reshape': 'reshape', 'flatten': 'flatten', 'broadcast_to': 'broadcast_to', 'tile': 'tile',
              'expand_dims': 'expand_dims', 'squeeze': 'squeeze', 'sum': 'sum', 'negative': 'ufuncs/negative', 'add': 'ufuncs/add',
              'concatenate': 'concatenate', 'repeat': 'repeat', 'pad': 'pad', 'cumsum': 'cumsum', 'roll': 'roll', 'flip': 'flip',
              'moveaxis': 'moveaxis', 'take': 'take', 'slice': 'slice', 'atleast_3d': 'atleast_nd', 'mulscalar': 'ufuncs/multiply',
-             'where': 'where', 'matmul': 'matmul', 'eye': 'eye', 'tri': 'tri', 'tril': 'tril', 'triu': 'triu', 'max_pool2d': 'pooling',
+             'where': 'where', 'bcast3': 'broadcast_arrays', 'matmul': 'matmul', 'eye': 'eye', 'tri': 'tri', 'tril': 'tril', 'triu': 'triu', 'max_pool2d': 'pooling',
              'avg_pool2d': 'pooling', 'resize': 'resize', 'sliding_window': 'sliding_window', 'compress': 'compress', 'outer_add': 'ufuncs/add'}
 BASE_HEADERS = ['ufuncs/add', 'ufuncs/mod']
 
@@ -725,6 +767,17 @@ def build_programs(tier):
         for k2 in (('cl',) if tier == 'quick' else ('cs', 'cl', 'fdh')):
             for n in binary_variants([op_matmul], Leaf(k1, (3, 1)), Leaf(k2, (1, 3))):
                 add(n)
+    # three-operand broadcasting with a number literal in every position (index::broadcast_size: the size type of the FIRST operand
+    # survives only next to operands of size ct<1>): first array fixed-size / hybrid / dynamic, second array stretches the result
+    firsts = ('cs', 'fdf', 'fdh') if tier == 'quick' else ('cs', 'fx', 'fdf', 'fdh', 'cl', 'cld', 'fd', 'bd', 'dy')
+    seconds = ('dy', 'fdf') if tier == 'quick' else ('dy', 'fd', 'bd', 'fdf', 'fdh', 'cs', 'cl')
+    for k1 in firsts:
+        for k2 in seconds:
+            for n in binary_variants([op_where3, op_bcast3], Leaf(k1, (2, 1)), Leaf(k2, (7,))):
+                add(n)
+    for k1 in (('cs', 'fdf', 'fdh', 'dy') if tier == 'quick' else kinds):
+        for n in unary_variants([op_where1, op_bcast1], Leaf(k1, (2, 3))):
+            add(n)
     # where(c, c, y) with a one-element condition: the class of the known finding C11.where-tripled-fixed-size (fdf partner)
     # and its sound neighbours (bounded / constant-shape / dynamic partner)
     for k1, P1 in (('fdf', (1, 1)), ('cs', (1, 1)), ('cs', (1,))):
